@@ -42,4 +42,46 @@ def run : Reg → List Op → List (Option Entry)
   | r, Op.reg n e :: ops => run (register r n e) ops
   | r, Op.conv n :: ops => lookup r n :: run r ops
 
+/-! ### The reference objects
+
+`orbit2frame(name, ref, …)` keeps a *reference to* `ref` (an `Orbit` with a propagator, an `Ephem`, or a plain
+`StateVector`; expressed in the parent frame or in any other one): `Center.offset` and
+`LocalOrbitalOrientation.statevector` are that very object.  A conversion reads it (`propagate(date)` when it has
+one, then `.copy(form="cartesian", frame=…)`) and must not write to it.  The world of a session is the registry plus
+the store of reference objects as the conversions can observe them; no operation has a case that writes to the store. -/
+
+/-- a reference object as a conversion observes it: its class, the frame and form it is expressed in and its six
+coordinates (bit patterns of the doubles) -/
+structure RefObj where
+  kind : String
+  frame : String
+  form : String
+  coords : List Nat
+  deriving DecidableEq, Repr
+
+structure World where
+  reg : Reg
+  refs : List RefObj
+
+/-- what a conversion through `name` reads: the binding and the reference object bound -/
+def readConv (w : World) (name : String) : Option (Entry × Option RefObj) :=
+  (lookup w.reg name).map (fun e => (e, w.refs[e.orbit]?))
+
+/-- one operation of a session -/
+def stepW (w : World) : Op → World × Option (Option (Entry × Option RefObj))
+  | Op.reg n e => ({ w with reg := register w.reg n e }, none)
+  | Op.conv n => (w, some (readConv w n))
+
+/-- world after a session -/
+def stateW : World → List Op → World
+  | w, [] => w
+  | w, o :: ops => stateW (stepW w o).1 ops
+
+/-- what each conversion of a session reads, in order -/
+def runW : World → List Op → List (Option (Entry × Option RefObj))
+  | _, [] => []
+  | w, o :: ops => match (stepW w o).2 with
+    | some r => r :: runW (stepW w o).1 ops
+    | none => runW (stepW w o).1 ops
+
 end BeyondVerif.FrameReg
